@@ -434,13 +434,13 @@ func runC30(cfg *hx.RunCfg) (*hx.Result, error) {
 	if n == 0 {
 		n = 1400
 		if cfg.Tier == "thorough" {
-			n = 60000
+			n = 20000
 		}
 	}
 	for _, in := range corpus() {
 		one(res, in)
 	}
-	r := hx.NewRng(cfg.Seed)
+	r := hx.NewRng(hx.NewRng(cfg.Seed).U64()) // mixed: hx seeds k and k+1 alone give streams shifted by one draw
 	for i := 0; i < n; i++ {
 		one(res, genInput(r, r.Chance(55)))
 	}
